@@ -10,7 +10,7 @@ LOWER = string.ascii_lowercase
 UPPER = string.ascii_uppercase
 
 
-def fresh_state_names(rng, n, special_p=0.08, style=None):
+def fresh_state_names(rng, n, special_p=0.08, style=None, setlike_p=0.04):
     """n distinct state names.  style: None = drawn; 'q' = q0..; 'rand' = random words."""
     if style is None:
         style = rng.choice(['rand', 'rand', 'rand', 'q', 's', 'digits'])
@@ -37,6 +37,15 @@ def fresh_state_names(rng, n, special_p=0.08, style=None):
                     break
         used.add(nm)
         out.append(nm)
+    # legal but unusual: names that look like the names the library itself generates for state sets / pairs
+    if n >= 1 and rng.random() < setlike_p * n:
+        i = rng.randrange(n)
+        others = [x for j, x in enumerate(out) if j != i]
+        pick = sorted(rng.sample(others, min(len(others), rng.randint(0, 2))))
+        form = rng.choice(['{%s}', '{%s}', '(%s)'])
+        nm = form % ','.join(pick)
+        if nm not in used:
+            out[i] = nm
     return out
 
 
